@@ -48,6 +48,16 @@ Theorem C09_threshold_spec : forall (liab : nat -> Q) (n : nat) (k : Z) (sel : l
 Proof. exact threshold_spec_lemma. Qed.
 Print Assumptions C09_threshold_spec.
 
+(* the contract of C09_threshold_spec is satisfiable: 3 samples with liabilities 0, 1, 2,
+   k = 1, the selection {2} *)
+Example C09_threshold_contract_inhabited :
+  let liab := fun i : nat => inject_Z (Z.of_nat i) in
+  NoDup [2] /\ (forall i, In i [2] -> 0 <= i < Z.of_nat 3) /\ lenZ [2] = 1
+  /\ (forall i j, In (Z.of_nat i) [2] -> ~ In (Z.of_nat j) [2] -> (j < 3)%nat -> (liab j <= liab i)%Q)
+  /\ threshold 3 1 [2] = [false; false; true].
+Proof. exact threshold_contract_inhabited_lemma. Qed.
+Print Assumptions C09_threshold_contract_inhabited.
+
 (* soundness of the pairwise liability check evaluated on the implementation's output *)
 Theorem C09_liability_check_sound : forall rows : list (bool * (Q * Q)),
   forallb (fun '(ci, (li, si)) =>
